@@ -187,7 +187,8 @@ def judge(ctx, cases, obs):
                                % (g["idx"], desc(got) if got else g["kind"], allowed, what), c)
                 elif not g["right_dst"]:
                     ctx.report(dict(base, kind="wrong_destination"), "datagram arrived at another destination; %s" % what, c)
-                elif len(c["binds"]) >= 2 and len(ctx.cov["samples"]) < 4 and len(allowed) == 1:
+                elif (len(c["binds"]) >= 2 and len(ctx.cov["samples"]) < 4 and len(allowed) == 1
+                      and len({b["plen"] for b in c["binds"]}) > 1 and r["hasSrc"] == (len(ctx.cov["samples"]) % 2 == 1)):
                     ctx.sample({"binds": [desc(b) for b in c["binds"]], "route": r, "allowed": allowed, "socket_used": g["idx"]})
             else:
                 m = e["model"]
